@@ -85,6 +85,27 @@ example : (match checkedDoc (nodeAttr "bind".toList "foo".toList ['a', Char.ofNa
 example : (match checkedDoc (nodeText "label".toList "<b> & ]]> \r 😀".toList) with | .ok _ => true | _ => false) = true := by
   decide
 
+/-! ## 2c. attribute values that go through `insert_xpaths` (`jr:noAppErrorString`, `bind::x`, `body::x` …) -/
+
+/-- **`insert_xpaths` on a cell `t0 ${n1} t1 … ${nk} tk`** (k ≥ 0): the literal chunks stay where they are, each
+    reference is replaced by its xpath, nothing else happens -/
+theorem insert_xpaths_cell (refs : List (Str × Str)) (c : Cell) (items : List (Str × Str))
+    (hh : hasDollarBrace c.head = false) (ht : TailOk c.tail) (hr : resolve refs c.tail = some items) :
+    insertXpaths refs c.text = some (c.head ++ itemsAttr items) := by
+  have := SubRTo.text (subRTo_tail refs c.tail items ht hr) (tailText_head c.tail) c.head hh
+  exact this _ (by simp [Cell.text])
+
+/-- … and the reader recovers exactly that string from the attribute (TAB/LF/CR normalised), as the only attribute:
+    the text of the cell cannot add or rename an attribute or create a child -/
+theorem attr_refs_channel (refs : List (Str × Str)) (tag k : Str) (c : Cell) (items : List (Str × Str))
+    (htag : isName tag = true) (hk : isName k = true)
+    (hh : hasDollarBrace c.head = false) (ht : TailOk c.tail) (hr : resolve refs c.tail = some items)
+    (hx : ∀ ch ∈ c.head ++ itemsAttr items, isXmlChar ch = true) :
+    ∃ v, insertXpaths refs c.text = some v ∧
+      parseDoc (renderDoc false (nodeAttr tag k v)) =
+        some (.elem tag [(k, normAttrVal (c.head ++ itemsAttr items))] []) :=
+  ⟨_, insert_xpaths_cell refs c items hh ht hr, attr_channel tag k _ htag hk hx⟩
+
 /-! ## 3. the mixed channel: `insert_output_values` + `node(tag, …, toParseString=…)` -/
 
 /-- the cell holds no instance() expression: its escaped text is short or does not contain `instance(`
@@ -136,9 +157,25 @@ theorem escText_tailText_head (tail : List (Str × Str)) : ∀ r', escText (Cell
     obtain ⟨n, t⟩ := nt
     simp [Cell.tailText, refMarkup, escText_cons, escTextChar]
 
-/-- what makes a cell `t0 ${n1} t1 … ${nk} tk` well-formed input of the channel: literal texts are XML
-    characters without `${`, names are delimitable (`NameOk`), every name resolves, every resolved
-    xpath is free of markup characters (`ValOk`; pyxform builds it from validated names) -/
+/-- every resolved xpath is free of markup characters (`ValOk`; pyxform builds it from validated names) -/
+def ValsOk : List (Str × Str) → Prop
+  | [] => True
+  | (v, _) :: rest => ValOk v ∧ ValsOk rest
+
+/-- the shape of a cell `t0 ${n1} t1 … ${nk} tk` with k ≥ 1: literal texts without `${` (ANY characters), names
+    delimitable (`NameOk`), every name resolves, resolved xpaths free of markup characters -/
+structure CellShape (refs : List (Str × Str)) (c : Cell) (items : List (Str × Str)) : Prop where
+  head : hasDollarBrace c.head = false
+  tail : TailOk c.tail
+  resolved : resolve refs c.tail = some items
+  vals : ValsOk items
+  nonempty : c.tail ≠ []
+
+/-- all literal texts of the cell pass `_validate_xml_chars` -/
+def textsValid (head : Str) (items : List (Str × Str)) : Bool :=
+  validChars head && items.all fun it => validChars it.2
+
+/-- … and, in addition, all literal texts are XML characters -/
 structure CellOk (refs : List (Str × Str)) (c : Cell) (items : List (Str × Str)) : Prop where
   head : TextOk c.head
   tail : TailOk c.tail
@@ -146,16 +183,46 @@ structure CellOk (refs : List (Str × Str)) (c : Cell) (items : List (Str × Str
   items : ItemsOk items
   nonempty : c.tail ≠ []
 
+theorem itemsOk_vals : ∀ {items : List (Str × Str)}, ItemsOk items → ValsOk items
+  | [], _ => trivial
+  | (_, _) :: _, h => ⟨h.1, itemsOk_vals h.2.2⟩
+
+theorem CellOk.shape {refs : List (Str × Str)} {c : Cell} {items : List (Str × Str)} (h : CellOk refs c items) :
+    CellShape refs c items :=
+  ⟨h.head.1, h.tail, h.resolved, itemsOk_vals h.items, h.nonempty⟩
+
+theorem itemsOk_of_vals : ∀ {items : List (Str × Str)}, ValsOk items →
+    (items.all fun it => validChars it.2) = true → ItemsOk items
+  | [], _, _ => trivial
+  | (v, t) :: rest, hv, ht => by
+    simp only [List.all_cons, Bool.and_eq_true] at ht
+    exact ⟨hv.1, List.all_eq_true.mp ht.1, itemsOk_of_vals hv.2 ht.2⟩
+
+theorem CellOk.texts_valid {refs : List (Str × Str)} {c : Cell} {items : List (Str × Str)} (h : CellOk refs c items) :
+    textsValid c.head items = true := by
+  have : ∀ {its : List (Str × Str)}, ItemsOk its → (its.all fun it => validChars it.2) = true := by
+    intro its
+    induction its with
+    | nil => intro _; rfl
+    | cons vt rest ih =>
+      obtain ⟨v, t⟩ := vt
+      intro hk
+      simp only [List.all_cons, Bool.and_eq_true]
+      exact ⟨List.all_eq_true.mpr hk.2.1, ih hk.2.2⟩
+  unfold textsValid
+  rw [Bool.and_eq_true]
+  exact ⟨List.all_eq_true.mpr h.head.2, this h.items⟩
+
 /-- **references, any number**: `insert_output_values` returns the escaped text chunks interleaved with
-    one `<output value="…" />` per reference, flagged as changed -/
-theorem insert_refs (refs : List (Str × Str)) (c : Cell) (items : List (Str × Str))
-    (hc : CellOk refs c items) (hi : NoInstanceExpr c.text) :
+    one `<output value="…" />` per reference, flagged as changed — whatever characters the texts hold -/
+theorem insert_refs_shape (refs : List (Str × Str)) (c : Cell) (items : List (Str × Str))
+    (hc : CellShape refs c items) (hi : NoInstanceExpr c.text) :
     insertOutputValues refs c.text = .ok (escText c.head ++ itemsMarkup items, true) := by
   obtain ⟨n, t, rest, htail⟩ : ∃ n t rest, c.tail = (n, t) :: rest := by
     cases h : c.tail with
     | nil => exact absurd h hc.nonempty
     | cons nt rest => exact ⟨nt.1, nt.2, rest, rfl⟩
-  have hsub := SubTo.text (subTo_tail refs c.tail items hc.tail hc.resolved) (escText_tailText_head c.tail) c.head hc.head.1
+  have hsub := SubTo.text (subTo_tail refs c.tail items hc.tail hc.resolved) (escText_tailText_head c.tail) c.head hc.head
   rw [← escText_append] at hsub
   have hsub' : subOutputs refs ((escText c.text).length + 1) (escText c.text) =
       some (escText c.head ++ itemsMarkup items) := hsub _ (by simp [Cell.text])
@@ -187,14 +254,73 @@ theorem insert_refs (refs : List (Str × Str)) (c : Cell) (items : List (Str × 
   rw [hsub']
   simp [hneq]
 
+theorem insert_refs (refs : List (Str × Str)) (c : Cell) (items : List (Str × Str))
+    (hc : CellOk refs c items) (hi : NoInstanceExpr c.text) :
+    insertOutputValues refs c.text = .ok (escText c.head ++ itemsMarkup items, true) :=
+  insert_refs_shape refs c items hc.shape hi
+
+theorem validChars_append (a b : Str) : validChars (a ++ b) = (validChars a && validChars b) := by
+  simp [validChars]
+
+theorem validChars_escText (s : Str) : validChars (escText s) = validChars s := by
+  induction s with
+  | nil => rfl
+  | cons c s ih =>
+    rw [escText_cons, validChars_append, ih]
+    have : validChars (escTextChar c) = isXmlChar c := by
+      unfold escTextChar
+      split
+      · decide
+      · decide
+      · decide
+      · simp [validChars]
+    rw [this]
+    simp [validChars]
+
+theorem validChars_outputMarkup (v : Str) : validChars (outputMarkup v) = validChars v := by
+  have h := outputMarkup_eq v []
+  rw [List.append_nil] at h
+  have c1 : validChars ('<' :: (tagOutput ++ [' '] ++ attrValue ++ ['=', '"'])) = true := by decide
+  have c2 : validChars ['"', ' ', '/', '>'] = true := by decide
+  have e : '<' :: (tagOutput ++ ' ' :: (attrValue ++ '=' :: '"' :: (v ++ ['"', ' ', '/', '>']))) =
+      ('<' :: (tagOutput ++ [' '] ++ attrValue ++ ['=', '"'])) ++ (v ++ ['"', ' ', '/', '>']) := by simp
+  rw [h, e, validChars_append, validChars_append, c1, c2]
+  simp
+
+theorem validChars_itemsMarkup : ∀ (items : List (Str × Str)), ValsOk items →
+    validChars (itemsMarkup items) = items.all fun it => validChars it.2
+  | [], _ => rfl
+  | (v, t) :: rest, hv => by
+    have hvv : validChars v = true := attrCharOk_xml hv.1.attrOk
+    simp only [itemsMarkup, List.all_cons, validChars_append, validChars_outputMarkup, hvv, validChars_escText,
+      validChars_itemsMarkup rest hv.2, Bool.true_and]
+
+/-- **the mixed channel, total form** (with the character check of fix 9bea19c in `node()`): a cell of the
+    shape `t0 ${n1} t1 … ${nk} tk` — ANY characters in the literal texts — is either rejected with a
+    PyXFormError, exactly when some literal text holds a character XML does not allow, or becomes the DOM with
+    exactly the prescribed children.  There is no third outcome (no crash of the re-parse). -/
+theorem mixed_channel_total (refs : List (Str × Str)) (tag : Str) (c : Cell) (items : List (Str × Str))
+    (htag : isName tag = true) (hc : CellShape refs c items) (hi : NoInstanceExpr c.text) :
+    mixedChannel refs tag c.text =
+      if textsValid c.head items then .ok (.elem tag [] (cellKids true c.head items)) else .pyxformError := by
+  have hv : validChars (escText c.head ++ itemsMarkup items) = textsValid c.head items := by
+    rw [validChars_append, validChars_escText, validChars_itemsMarkup items hc.vals, textsValid]
+  simp only [mixedChannel, insert_refs_shape refs c items hc hi, hv]
+  cases ht : textsValid c.head items with
+  | false => simp
+  | true =>
+    have h2 : validChars c.head = true ∧ (items.all fun it => validChars it.2) = true := by
+      simpa [textsValid] using ht
+    simp [nodeParsed_items tag c.head items htag (List.all_eq_true.mp h2.1) (itemsOk_of_vals hc.vals h2.2)]
+
 /-- **the mixed channel, any number of references**: the DOM that `node(tag, …, toParseString=True)`
     builds has exactly the children the cell prescribes — the literal chunks as text nodes (data) and one
     `output` element per reference, in order; user text creates, renames or removes nothing -/
 theorem mixed_channel (refs : List (Str × Str)) (tag : Str) (c : Cell) (items : List (Str × Str))
     (htag : isName tag = true) (hc : CellOk refs c items) (hi : NoInstanceExpr c.text) :
     mixedChannel refs tag c.text = .ok (.elem tag [] (cellKids true c.head items)) := by
-  simp only [mixedChannel, insert_refs refs c items hc hi,
-    nodeParsed_items tag c.head items htag hc.head.2 hc.items]
+  rw [mixed_channel_total refs tag c items htag hc.shape hi, hc.texts_valid]
+  rfl
 
 /-- one reference (the instance the DESIGN plan asked for first), spelled out -/
 theorem mixed_one_ref (refs : List (Str × Str)) (tag a n b xp : Str) (htag : isName tag = true)
@@ -493,9 +619,17 @@ theorem table_bracketedTagRegex :
 
 /-! ## 6. Non-vacuity -/
 
+instance decValOk (v : Str) : Decidable (ValOk v) := by unfold ValOk; infer_instance
+instance decValsOk : (l : List (Str × Str)) → Decidable (ValsOk l)
+  | [] => isTrue trivial
+  | (v, _) :: rest =>
+    match decValOk v, decValsOk rest with
+    | isTrue h1, isTrue h2 => isTrue ⟨h1, h2⟩
+    | isFalse h1, _ => isFalse fun h => h1 h.1
+    | _, isFalse h2 => isFalse fun h => h2 h.2
+
 instance (t : Str) : Decidable (TextOk t) := by unfold TextOk; infer_instance
 instance (n : Str) : Decidable (NameOk n) := by unfold NameOk; infer_instance
-instance (v : Str) : Decidable (ValOk v) := by unfold ValOk; infer_instance
 instance (s : Str) : Decidable (NoInstanceExpr s) := by unfold NoInstanceExpr; infer_instance
 
 def exRefs : List (Str × Str) := [("a".toList, "/data/a".toList), ("b2".toList, "/data/g/b2".toList)]
@@ -564,10 +698,9 @@ example : mixedChannel exRefs "label".toList "x < ${a} & y".toList =
   mixed_one_ref exRefs _ "x < ".toList "a".toList " & y".toList "/data/a".toList (by decide) (by decide) (by decide)
     (by decide) (by decide) (by decide) (by decide) (by decide)
 
--- the guards are needed.  In the mixed channel the re-parse comes before the character check: a control
--- character next to a reference is an expat error inside `node()` (open finding F4-reparse-non-xml-char) …
+-- a control character next to a reference is rejected before the re-parse (fix 9bea19c), not crashed on …
 example : (match mixedChannel exRefs "label".toList ['a', Char.ofNat 1, ' ', '$', '{', 'a', '}'] with
-    | .reparseError => true | _ => false) = true := by decide +kernel
+    | .pyxformError => true | _ => false) = true := by decide +kernel
 -- … and a writer without the check would produce a document the reader rejects:
 example : parseDoc (renderDoc false (nodeText "label".toList ['a', Char.ofNat 1, 'b'])) = none := by decide +kernel
 -- an unknown name is an error:
@@ -584,56 +717,29 @@ example : mixedChannel exRefs "hint".toList exCellLS.text =
     .ok (.elem "hint".toList [] (cellKids true exCellLS.head exItemsLS)) :=
   mixed_channel exRefs _ exCellLS exItemsLS (by decide) exCellLS_ok (by decide +kernel)
 
-/-! ## 7. instance() expressions: what the code does, pinned on the model (the open findings as exact witnesses)
+-- the total form at a cell with a control character next to a reference: rejected
+def exCellBad : Cell := ⟨['a', Char.ofNat 1, 'b', ' '], [("a".toList, " <c>".toList)]⟩
+theorem exCellBad_shape : CellShape exRefs exCellBad [(" /data/a ".toList, " <c>".toList)] :=
+  ⟨by decide, ⟨by decide, by decide, trivial⟩, by decide, ⟨by decide, trivial⟩, by decide⟩
+example : (match mixedChannel exRefs "label".toList exCellBad.text with | .pyxformError => true | _ => false) = true := by
+  rw [mixed_channel_total exRefs _ exCellBad _ (by decide) exCellBad_shape (by decide +kernel)]
+  decide
+-- … and at the adversarial cell of XML characters: accepted, with the prescribed children
+example : mixedChannel exRefs "label".toList exCell.text = .ok (.elem "label".toList [] (cellKids true exCell.head exItems)) := by
+  rw [mixed_channel_total exRefs _ exCell exItems (by decide) exCell_ok.shape exCell_noInstance, exCell_ok.texts_valid]
+  rfl
 
-`spec…` is what the property demands (the expression, as typed, is the value of one `output`; the text around it
-is text; further references are further outputs); the theorems state what the model of the code computes
-instead.  The same inputs are in the check's directed stream, where the implementation is compared. -/
-
-/-- the element of an `.ok` outcome -/
-def okNode : Outcome Node → Option Node
-  | .ok n => some n
-  | _ => none
-
-def outp (v : String) : Node := outputNode v.toList
-def txt (s : String) : Node := .text true s.toList
-
-/-- a well-behaved cell: expression with a reference in its predicate, text around it, a second reference -/
-theorem instance_expr_ok :
-    okNode (mixedChannel exRefs "label".toList "x instance('l')/root/item[name = ${a}]/label y ${b2}".toList) =
-      some (.elem "label".toList []
-        [txt "x ", outp "instance('l')/root/item[name =  /data/a ]/label", txt " y ", outp " /data/g/b2 "]) := by
-  decide +kernel
-
-/-- **F15**: ` and ${a}` after the path is swallowed into the output's value (demanded:
-    `[outp "instance('l')/root/item[name = 'c1']/label", txt " and ", outp " /data/a ", txt " tail"]`) -/
-theorem F15_witness :
-    okNode (mixedChannel exRefs "label".toList "instance('l')/root/item[name = 'c1']/label and ${a} tail".toList) =
-      some (.elem "label".toList []
-        [outp "instance('l')/root/item[name = 'c1']/label and  /data/a ", txt " tail"]) := by
-  decide +kernel
-
-/-- **F39**: the expression is escaped twice; the reader finds `&lt;` where `<` was typed -/
-theorem F39_witness :
-    okNode (mixedChannel exRefs "label".toList "x instance('l')/root/item[name < 3]/label y".toList) =
-      some (.elem "label".toList []
-        [txt "x ", outp "instance('l')/root/item[name &lt; 3]/label", txt " y"]) := by
-  decide +kernel
-
-/-- **F40**: a quote before the expression hides it from `find_boundaries`: no output at all -/
-theorem F40_witness :
-    okNode (mixedChannel exRefs "label".toList "it's instance('l')/root/item[name = 1]/label".toList) =
-      some (nodeText "label".toList "it's instance('l')/root/item[name = 1]/label".toList) := by
-  decide +kernel
-
-/-- the boundaries themselves, for the F15 input: ONE expression spanning up to the end of ` /data/a`'s
-    source `${a}` (positions in the escaped text) -/
-theorem F15_boundaries :
-    (Lexer.parseExpression "instance('l')/root/item[name = 'c1']/label and ${a} tail".toList).map
-      (fun r => findBoundaries r.1) = some [(0, 51)] := by
-  decide +kernel
+-- `insert_xpaths` / attribute channel with references at the adversarial cell
+example : insertXpaths exRefs exCell.text = some (exCell.head ++ itemsAttr exItems) :=
+  insert_xpaths_cell exRefs exCell exItems exCell_ok.head.1 exCell_ok.tail exCell_ok.resolved
+example : ∃ v, insertXpaths exRefs exCell.text = some v ∧
+    parseDoc (renderDoc false (nodeAttr "bind".toList "jr:noAppErrorString".toList v)) =
+      some (.elem "bind".toList [("jr:noAppErrorString".toList, normAttrVal (exCell.head ++ itemsAttr exItems))] []) :=
+  attr_refs_channel exRefs _ _ exCell exItems (by decide) (by decide) exCell_ok.head.1 exCell_ok.tail exCell_ok.resolved
+    (by decide +kernel)
 
 #print axioms mixed_channel
+#print axioms mixed_channel_total
 #print axioms shape_noninterference
 #print axioms text_channel
 #print axioms attr_channel
